@@ -8,12 +8,13 @@ chunking, completion order of the workers, or order of the requested items".
 
 ASSUMED (each with a `note=` on an assumed contract, listed in the evidence):
   * `itertools.product` / `frozenset` (contract `itertools.product+frozenset`): product(*lists) yields a finite number P of tuples
-    (ghost enumeration tup[0..P)); frozenset(t) is an immutable value identified by an opaque IDENTITY frozenset_of(t) (two tuples
-    with the same members give the same identity: that is what makes the combinations unordered - the identity function is left
-    uninterpreted, nothing is derived from it); the SET comprehension {frozenset(c) for c in product(...)} is then the engine's
-    ordinary set comprehension: the set C = { frozenset_of(tup[i]) : 0 <= i < P } (both inclusions are in the post-condition);
-    len(C) and iteration over C go through the engine's ghost enumeration of a set (order / pos bijection between [0, n) and C);
-    set(ids) of a combination identity c is the opaque value set_of(c).
+    (ghost enumeration tup[0..P)); tuple i has the components lists[k][A_k[i]] (ghost index arrays) and every vector of positions
+    (a_0, ..) occurs, at IDX(a_0, ..); frozenset(t) is an immutable value identified by an opaque IDENTITY frozenset_of(t) whose
+    members are exactly the components of t, and two tuples of the product have the same identity exactly when they have the same
+    SET of components (extensionality: that is what makes the combinations unordered); the SET comprehension
+    {frozenset(c) for c in product(...)} is then the engine's ordinary set comprehension: the set C = { frozenset_of(tup[i]) :
+    0 <= i < P } (both inclusions are in the post-condition); len(C) and iteration over C go through the engine's ghost enumeration
+    of a set (order / pos bijection between [0, n) and C); set(ids) of a combination identity c is the opaque value set_of(c).
   * `map` (contract `builtins.map`): map(f, items) is lazy; consumed, its k-th element is f(k-th item of the iteration of items),
     the calls happening in that order when the consumer asks for the elements.
   * the pool (contract `Pool.imap_unordered` of contracts/c14_fva_pool.py): ProcessPool(p, initializer, initargs) - every worker
@@ -48,7 +49,10 @@ the parallel path are paths of every case), with loop invariants over the ARRIVA
   * the deletion function is called exactly ONCE for every combination of C and never for anything else (rec_n[c] = 1 on C, 0
     elsewhere), with (model, c) in the serial branch / through the worker of that entity on the worker's copy in the parallel one;
     the function is `_gene_deletion` for entity "gene" and `_reaction_deletion` for "reaction";
-  * C is exactly { frozenset_of(t) : t a tuple of product(*element_lists) } (both inclusions);
+  * C is exactly { frozenset_of(t) : t a tuple of product(*element_lists) } (both inclusions); in terms of the REQUESTED ids: for
+    every choice of one position per element list there is a combination in C whose members are exactly the ids at these positions
+    (hence a row for it), and two tuples of the product share a row exactly when they have the same SET of ids - one row per
+    UNORDERED combination;
   * processes = min(processes or configuration.processes, len(C)); the pool is used exactly when that is > 1; then ONE pool,
     created with exactly (that number, initializer=_init_worker, initargs=(model,)) inside the function's context AFTER the
     moma / room set-up, entered, ONE imap_unordered(<worker of the entity>, C, chunksize = len(C) // processes) with chunksize >= 1
@@ -65,8 +69,42 @@ PROVED for `_entities_ids`: a list of objects -> the new list of their ids, posi
 the same entries (copy); for `_element_lists`: see the cases below (None -> all entities, second None -> the SAME list as the
 first).
 
-Mutation trials (tools/mutate_and_run.sh; each must NOT verify) are listed at the end of this docstring by the maintainer of this
-module: see MUTANTS below.
+Engine extensions used (additive; pyvc/builtins.py, comprehension.py, engine.py): list(<tuple / list display of concrete length>);
+item assignment, slicing and append on a list display of concrete length with non-scalar entries (`pylist`); a list comprehension
+whose single element expression raises the same exception at every element (`[e.id for e in <list of str>]`): it raises when the
+source is not empty and is the empty list otherwise.
+
+MUTANTS (deliberately broken copies of cobra/flux_analysis/deletion.py, run as tools/mutate_and_run.sh does - for `_multi_deletion`
+restricted to the named case(s) to keep the trials short; none verifies; `post.N` as numbered by the run, with what the clause says):
+ _multi_deletion
+  1 `min(processes, len(args))` -> `max(...)`           gene:single:fba  call:Pool.imap_unordered/pre-chunksize>=1 unknown; return#1
+                                                          post.11 sat (pool used iff min(p, n) > 1), post.12 (pool size = min(p, n)),
+                                                          post.14 / post.16 (chunksize bounds) unknown
+  2 `len(args) // processes` -> `processes // len(args)`  gene:single:fba  pre-chunksize>=1, return#1 post.14 / post.16 unknown
+  3 `"gene": _gene_deletion_worker` -> `_reaction_deletion_worker`   gene:single:fba  return#1 post.14 (the worker of the entity) unknown
+  4 `if processes > 1:` -> `> 2`                          reaction:double:fba  return#2 post.11 (serial only when min(p, n) <= 1) unknown
+  5 `for (ids, growth, status)` -> `(ids, status, growth)`  reaction:double:fba  return#1 / return#2 post.1 (the frame: row shape) unknown
+  6 add_moma `linear="linear" in method` -> `not in`      reaction:single:linear-moma  return#1 post.17 / return#2 post.12 (set-up call) unknown
+  7 add_room without `**kwargs`                           reaction:single:room  return#1 post.17 / return#2 post.12 unknown
+  8 columns `["ids", "status", "growth"]`                 reaction:single:fba  return#1 / return#2 post.1 (the frame term) unknown
+  9 serial worker table swapped                           reaction:single:fba  return#2 post.12 (partial(<function of the entity>, model)) unknown
+ 10 `solver not in sutil.qp_solvers` -> `in`              reaction:single:moma:no-qp-solver  every exit `expected-RuntimeError` sat / unknown
+ 11 `with model:` -> `if True:`                           reaction:single:linear-moma  return#1 post.13 (pool created inside the context),
+                                                          post.17 and return#2 post.12 sat (set-up call inside the context)
+ 12 `ProcessPool(processes, ...)` -> `processes + 1`      reaction:single:fba  return#1 post.12 (pool size) unknown
+ 13 `elif "room" in method` -> `elif "linear" in method`  reaction:single:room  return#1 post.17 / return#2 post.12 (add_room missing) unknown
+ 14 `if processes is None:` -> `is not None`              reaction:single:fba  post.11 / 12 / 15 / 16 unknown; processes=None: undecided
+                                                          (min(None, n) is outside the engine)
+ wrappers (HOOKS_W; `post` sat in every listed case)
+ 15 single_reaction_deletion: entity "gene"               16 double_gene_deletion: [gene_list2, gene_list1]
+ 17 single_gene_deletion: _element_lists(model.reactions, ...)   18 single_reaction_deletion without processes=processes
+ 19 double_reaction_deletion: _element_lists(model.reactions, reaction_list2, reaction_list1)
+ _element_lists / _entities_ids
+ 20 `if lists[0] is None` -> `is not None`                case None: call:_entities_ids/pre sat; case ids,None: post.1 / post.2 sat
+ 21 `result.append(result[-1])` -> `result.append(_entities_ids(entities))`   cases ids,None / objects,None: post.3 (the SAME list) sat
+ 22 `lists[1:]` -> `lists[2:]`                            cases ids,None / None,ids: post sat (one entry per argument)
+ 23 `[e.id for e in entities]` -> `[e for e in entities]`  cases objects / objects:DictList: post sat
+ 24 `return list(entities)` -> `return []`                case ids: return#1 post.2 sat
 """
 import z3
 import cobra  # noqa
@@ -168,13 +206,42 @@ def len_hook(eng, st, v):
     return None
 
 
+COMP = z3.Function("tuple_component", Ref, z3.IntSort(), Id)       # the k-th component of a tuple of the product
+MEM = z3.Function("frozenset_has", Ref, Id, z3.BoolSort())           # membership in a frozenset (by identity)
+
+
+def _sameset(tup, r, i, i2):
+    """the tuples i and i2 of the product have the same SET of components"""
+    return z3.And(*[z3.Or(*[COMP(tup[i], k) == COMP(tup[i2], k2) for k2 in range(r)]) for k in range(r)],
+                  *[z3.Or(*[COMP(tup[i2], k) == COMP(tup[i], k2) for k2 in range(r)]) for k in range(r)])
+
+
 def _product(eng, st, pos, kw):
+    """ASSUMED (itertools.product+frozenset): P tuples; tuple i has the components lists[k][A_k[i]]; every index vector occurs
+    (at position IDX(a_0, ..)); frozenset(t) has exactly the components of t as members; two tuples of the product give the same
+    frozenset identity exactly when they have the same set of components (extensionality)"""
     ASSUMED_USED["itertools.product+frozenset"] = REG.get("itertools.product+frozenset").note
-    if kw or not all(isinstance(p, VObj) and p.kind == "list" for p in pos):
-        raise Unsupported("product of something else than lists")
-    P = fresh("product_len", z3.IntSort())
+    if kw or not pos or not all(isinstance(p, VObj) and p.kind == "list" and st.objs[p.oid].get("ekind") == "id" for p in pos):
+        raise Unsupported("product of something else than lists of ids")
+    r = len(pos)
+    I_ = z3.IntSort()
+    P = fresh("product_len", I_)
     tup = fresh("product_tuple", IntRef)
-    st = st.assume(P >= 0).setghost("md_product", (P, tup, tuple(pos)))
+    A = [fresh(f"product_index{k}", IntInt) for k in range(r)]
+    IDX = z3.Function(fresh_name("product_pos"), *([I_] * (r + 1)))
+    ne = [(st.objs[p.oid]["len"], st.objs[p.oid]["elem"]) for p in pos]
+    i, i2, y = qv("pi"), qv("pi2"), qv("py", Id)
+    a = [qv(f"pa{k}") for k in range(r)]
+    axs = [P >= 0,
+           FA([i], z3.Implies(z3.And(0 <= i, i < P), z3.And(*[z3.And(0 <= A[k][i], A[k][i] < ne[k][0], COMP(tup[i], k) == ne[k][1][A[k][i]])
+                                                              for k in range(r)])), patterns=[tup[i]]),
+           FA(a, z3.Implies(z3.And(*[z3.And(0 <= a[k], a[k] < ne[k][0]) for k in range(r)]),
+                            z3.And(0 <= IDX(*a), IDX(*a) < P, *[A[k][IDX(*a)] == a[k] for k in range(r)])), patterns=[IDX(*a)]),
+           FA([i, y], z3.Implies(z3.And(0 <= i, i < P), MEM(FS(tup[i]), y) == z3.Or(*[COMP(tup[i], k) == y for k in range(r)])),
+              patterns=[MEM(FS(tup[i]), y)]),
+           FA([i, i2], z3.Implies(z3.And(0 <= i, i < P, 0 <= i2, i2 < P), (FS(tup[i]) == FS(tup[i2])) == _sameset(tup, r, i, i2)),
+              patterns=[z3.MultiPattern(FS(tup[i]), FS(tup[i2]))])]
+    st = st.assume(*axs).setghost("md_product", (P, tup, tuple(pos), A, IDX))
     return [("ok", st, VSeq(P, lambda s, i: VRef(tup[i], "CombTuple"), tag="product"))]
 
 
@@ -487,17 +554,33 @@ def _setup_ok(E):
 
 
 def _C_is_the_comprehension(E, lz):
+    """C = { frozenset_of(t) : t a tuple of product(*element_lists) } (both inclusions), and in terms of the REQUESTED ids: for every
+    choice (a_0, ..) of one position per element list there is a combination in C whose members are exactly the ids at these
+    positions (so it has a row, by `_rows_clauses`); two tuples of the product share a row exactly when they have the same SET of
+    ids - one row per UNORDERED combination"""
     pr = E.s1.ghost.get("md_product")
     if pr is None:
         return z3.BoolVal(False)
-    P, tup, lists = pr
+    P, tup, lists, A, IDX = pr
     el = E["element_lists"]
     if not (isinstance(el, VTuple) and len(lists) == len(el.items) and all(a is b for a, b in zip(lists, el.items))):
         return z3.BoolVal(False)
+    r = len(lists)
+    ne = [L(E.s0, l) for l in lists]
     _, order, pos, dom = lz.seq.src[:4]
-    i, c, i2 = qv("ci"), qv("cc", Ref), qv("ci2")
+    invf = (lambda t: lz.inv[t]) if lz.inv is not None else (lambda t: t)
+    i, c, i2, i3, i4, y = qv("ci"), qv("cc", Ref), qv("ci2"), qv("ci3"), qv("ci4"), qv("cy", Id)
+    a, b = [qv(f"ca{k}") for k in range(r)], [qv(f"cb{k}") for k in range(r)]
+    in_a = z3.And(*[z3.And(0 <= a[k], a[k] < ne[k][0]) for k in range(r)])
+    in_b = z3.And(*[z3.And(0 <= b[k], b[k] < ne[k][0]) for k in range(r)])
+    row = lambda t: invf(pos[FS(tup[t])])  # noqa
     return z3.And(FA([i], z3.Implies(z3.And(0 <= i, i < P), dom[FS(tup[i])]), patterns=[tup[i]]),
-                  FA([c], z3.Implies(dom[c], z3.Exists([i2], z3.And(0 <= i2, i2 < P, FS(tup[i2]) == c))), patterns=[dom[c]]))
+                  FA([c], z3.Implies(dom[c], z3.Exists([i2], z3.And(0 <= i2, i2 < P, FS(tup[i2]) == c))), patterns=[dom[c]]),
+                  FA(a, z3.Implies(in_a, z3.And(0 <= IDX(*a), IDX(*a) < P, dom[FS(tup[IDX(*a)])])), patterns=[IDX(*a)]),
+                  FA(b + [y], z3.Implies(in_b, MEM(FS(tup[IDX(*b)]), y) == z3.Or(*[y == ne[k][1][b[k]] for k in range(r)])),
+                     patterns=[MEM(FS(tup[IDX(*b)]), y)]),
+                  FA([i3, i4], z3.Implies(z3.And(0 <= i3, i3 < P, 0 <= i4, i4 < P), (row(i3) == row(i4)) == _sameset(tup, r, i3, i4)),
+                     patterns=[z3.MultiPattern(tup[i3], tup[i4])]))
 
 
 def _frame_rows(E):
@@ -698,7 +781,8 @@ _ei_dl.params_override = {"entities": TDictList("Gene")}
 _ei_ids = Case("ids", ensures=_ei_post_ids)
 _ei_ids.params_override = {"entities": TList("id")}
 REG.add(Contract(MD, "_entities_ids", "C06", [("entities", TList("id"))], [_ei_obj, _ei_dl, _ei_ids], key="_entities_ids",
-                 pre=lambda E: L(E.s0, E["entities"])[0] >= 0, props=["C06", "C14"],
+                 pre=lambda E: L(E.s0, E["entities"])[0] >= 0 if isinstance(E["entities"], VObj) and E["entities"].kind == "list" else z3.BoolVal(False),
+                 props=["C06", "C14"],
                  note="a homogeneous list: cobra objects (their ids, position by position) or ids (a copy)"))
 
 
